@@ -25,7 +25,9 @@ private theorem ansMsg_id (id : Json) (a : Ans) (msg : Json) (h : ansMsg (some i
   | error c m =>
     simp only [ansMsg, Option.some.injEq] at h; subst h
     simp [msgId, errMsg, lookup, jsonrpcField]
-  | unencodable => simp [ansMsg] at h
+  | unencodable why =>
+    simp only [ansMsg, Option.some.injEq] at h; subst h
+    simp [msgId, errMsg, lookup, jsonrpcField]
 
 private theorem goDecode_exact (id : Json) (h : exactId id) : goDecode id = some id := by
   cases id with
@@ -46,8 +48,8 @@ private theorem goDecode_exact (id : Json) (h : exactId id) : goDecode id = some
     arriving in a session that accepts it, is answered — on the Streamable server (the HTTP answer of the POST), on the legacy
     SSE server (one frame on the session's stream) and on the stdio server (one line) — by exactly one message, and that
     message carries the request's id unchanged: the same JSON value, a string stays a string, an integer stays that
-    integer. (`a` is whatever the dispatcher computed from this request's own method and params; an unencodable result
-    produces no message — D08, property C03.) -/
+    integer. (`a` is whatever the dispatcher computed from this request's own method and params; an unencodable result is
+    answered with an internal-error message for the same id.) -/
 theorem C01_echo (reg : Registry) (o mm : Obj) (hwf : wfEnvelope (.obj o) = true) (hrep : goDecodeFields o = some mm)
     (m : Text) (hm : lookup o t!"method" = some (.str m)) (hne : m ≠ [])
     (c : SCfg) (st : St) (ref : Ref) (acc : Bool) (hs : sessionOk c st ref m)
